@@ -22,7 +22,8 @@ def drag_model(spec):
     kw = {}
     if spec.get("wdl"):
         w, d, l = spec["wdl"]
-        kw = {"weight": W.Grain(w), "diameter": D.Inch(d), "length": D.Inch(l)}
+        # a zero entry = that argument is not given at all (partial bullet data)
+        kw = {k: v for k, v, given in (("weight", W.Grain(w), w), ("diameter", D.Inch(d), d), ("length", D.Inch(l), l)) if given}
     if spec.get("mbc"):
         pts = [pb.BCPoint(bc, Mach=m) for bc, m in spec["mbc"]]
         return pb.DragModelMultiBC(pts, table_of(spec), **kw)
